@@ -1,0 +1,58 @@
+//go:build verif
+
+package modules
+
+import (
+	"sync/atomic"
+	"time"
+)
+
+// This file is only compiled with the "verif" build tag. It gives the
+// verification harness in /verif access to a few internals and lets it
+// install a sink for the verifPoint yield points.
+
+// VerifHook, when set, is called at every verifPoint with the name of the
+// point and a context string (module or task name).
+var VerifHook func(point, ctx string)
+
+func verifPoint(point, ctx string) {
+	if h := VerifHook; h != nil {
+		h(point, ctx)
+	}
+}
+
+// VerifSetTimeouts overrides the module start and stop timeouts.
+func VerifSetTimeouts(start, stop time.Duration) {
+	if start > 0 {
+		moduleStartTimeout = start
+	}
+	if stop > 0 {
+		moduleStopTimeout = stop
+	}
+}
+
+// VerifQueueLens returns the lengths of the task queue, the prioritized task
+// queue and the task schedule.
+func VerifQueueLens() (queue, prioritized, schedule int) {
+	queuesLock.Lock()
+	queue, prioritized = taskQueue.Len(), prioritizedTaskQueue.Len()
+	queuesLock.Unlock()
+	scheduleLock.Lock()
+	schedule = taskSchedule.Len()
+	scheduleLock.Unlock()
+	return
+}
+
+// VerifMicroTaskState returns the global microtask counter, the configured
+// threshold and the number of clearance requests waiting in the two queues.
+func VerifMicroTaskState() (running, threshold int32, pendingMedium, pendingLow int) {
+	return atomic.LoadInt32(microTasks), atomic.LoadInt32(microTasksThreshhold),
+		len(mediumPriorityClearance), len(lowPriorityClearance)
+}
+
+// VerifTaskState reports the internal flags of a task.
+func (t *Task) VerifTaskState() (canceled, executing, queued, prioritized, scheduled bool) {
+	t.lock.Lock()
+	defer t.lock.Unlock()
+	return t.canceled, t.executing, t.queueElement != nil, t.prioritizedQueueElement != nil, t.scheduleListElement != nil
+}
